@@ -5,6 +5,8 @@ from amaranth_soc import event
 
 
 def gen_case(seed, idx, what, ncycles):
+    if what == "mapexh":
+        return {"seed": 0, "idx": idx, "what": "map", "ncycles": 0, "exh": ncycles}
     return {"seed": seed, "idx": idx, "what": what, "ncycles": ncycles}
 
 
@@ -75,20 +77,40 @@ def run_monitor(case):
             "descr": f"modes={modes} style={style}"}
 
 
+MAP_ALPHABET = [("add", 0), ("add", 1), ("add", 2), ("index", 0), ("index", 1), ("index", 2), ("size",), ("sources",), ("freeze",)]
+
+
+def map_exh_count(k):
+    return len(MAP_ALPHABET) ** k
+
+
 def run_map(case):
     rnd = lib.rng_for(case["seed"], case["idx"], 1314)
     em = event.EventMap()
-    pool = [event.Source(trigger=rnd.choice(["level", "rise", "fall"])) for _ in range(rnd.randint(1, 7))]
+    exh = case.get("exh")
+    if exh:
+        # bounded-exhaustive: sequence number `idx` of all op sequences of length `exh` over MAP_ALPHABET
+        pool = [event.Source(trigger=m) for m in ("level", "rise", "fall")]
+        x, script = case["idx"], []
+        for _ in range(exh):
+            script.append(MAP_ALPHABET[x % len(MAP_ALPHABET)])
+            x //= len(MAP_ALPHABET)
+    else:
+        pool = [event.Source(trigger=rnd.choice(["level", "rise", "fall"])) for _ in range(rnd.randint(1, 7))]
+        script = None
     ids = {id(s): k for k, s in enumerate(pool)}
     lines, obs, fails = ["case"], [], []
     first_add = []
     frozen = False
     stats = {"ops": 0, "repeats": 0, "refused": 0}
-    for _ in range(rnd.randint(3, 25)):
-        op = rnd.choice(["add", "add", "add", "index", "index", "size", "sources", "freeze"])
+    for step in range(len(script) if script is not None else rnd.randint(3, 25)):
+        if script is not None:
+            op, karg = script[step][0], (script[step][1] if len(script[step]) > 1 else None)
+        else:
+            op, karg = rnd.choice(["add", "add", "add", "index", "index", "size", "sources", "freeze"]), None
         stats["ops"] += 1
         if op == "add":
-            k = rnd.randrange(len(pool))
+            k = rnd.randrange(len(pool)) if karg is None else karg
             lines.append(f"add {k}")
             try:
                 em.add(pool[k])
@@ -105,7 +127,7 @@ def run_map(case):
                 if not frozen:
                     fails.append(("C13", "add() refused on a map that is not frozen", len(obs)))
         elif op == "index":
-            k = rnd.randrange(len(pool))
+            k = rnd.randrange(len(pool)) if karg is None else karg
             lines.append(f"index {k}")
             try:
                 v = em.index(pool[k])
@@ -128,7 +150,7 @@ def run_map(case):
             if got != [(k, i) for i, k in enumerate(first_add)]:
                 fails.append(("C13", f"sources() = {got}, expected numbering by first addition {first_add}", len(obs)))
         else:
-            if rnd.random() < .3:
+            if script is not None or rnd.random() < .3:
                 lines.append("freeze")
                 em.freeze()
                 frozen = True
